@@ -103,16 +103,9 @@ def mapBranchLabels (ids : List Id) : List Rev → List (String × Id) → Excep
 def lookupKey (ids : List Id) (labelKeys : List (String × Id)) (k : String) : Option Id :=
   if k ∈ ids then some k else (labelKeys.find? (·.1 == k)).map (·.2)
 
-/-- `_add_depends_on` for one revision -/
-def resolveDeps (ids : List Id) (labelKeys : List (String × Id)) : List String → Except Err (List Id)
-  | [] => .ok []
-  | d :: ds =>
-    match lookupKey ids labelKeys d with
-    | none => .error .keyError
-    | some i =>
-      match resolveDeps ids labelKeys ds with
-      | .error e => .error e
-      | .ok r => .ok (i :: r)
+/-- `_add_depends_on` for one revision (every name is known to resolve when this is used) -/
+def resolveDeps (ids : List Id) (labelKeys : List (String × Id)) (deps : List String) : List Id :=
+  deps.filterMap (lookupKey ids labelKeys)
 
 def removeAll (l : List Id) (xs : List Id) : List Id := l.filter (fun x => x ∉ xs)
 
@@ -125,18 +118,21 @@ structure LoadOpts where
   /-- observed iteration order of `_normalized_resolved_dependencies` per revision -/
   normOrder : List (Id × List Id) := []
 
+/-- the revision objects after `_add_depends_on` -/
+def phase1Revs (h : Hist) (labelKeys : List (String × Id)) : List LRev :=
+  h.map (fun r =>
+    ({ id := r.id, down := r.down, rdeps := resolveDeps (h.map (·.id)) labelKeys r.deps, ndeps := [],
+       origLabels := r.labels, labels := r.labels } : LRev))
+
 /-- first phase: everything up to and including `add_nextrev`/heads/bases (no `ndeps` yet) -/
 def loadPhase1 (h : Hist) : Except Err LMap := do
   h.forM checkRev
   let ids := h.map (·.id)
   let labelKeys ← mapBranchLabels ids (h.filter (fun r => r.labels ≠ [])) []
-  let revs ← h.mapM (fun r => do
-    let rd ← resolveDeps ids labelKeys r.deps
-    pure ({ id := r.id, down := r.down, rdeps := rd, ndeps := [], origLabels := r.labels,
-            labels := r.labels } : LRev))
-  -- `map_[downrev]` raises KeyError for a reference that is not present
-  if revs.any (fun r => r.allDown.any (fun d => (lookupKey ids labelKeys d).isNone)) then
+  -- `map_[dep]` / `map_[downrev]` raise KeyError for a reference that is not present
+  if h.any (fun r => (r.down ++ r.deps).any (fun d => (lookupKey ids labelKeys d).isNone)) then
     throw .keyError
+  let revs := phase1Revs h labelKeys
   let m0 : LMap := { revs := revs, labelKeys := labelKeys, heads := [], realHeads := [], bases := [], realBases := [] }
   pure { m0 with
     heads := (revs.filter (fun r => (m0.nextrev r.id).isEmpty)).map (·.id)
@@ -153,10 +149,22 @@ def normalizeOne (m : LMap) (r : LRev) : List Id :=
     let drop := anc.flatMap (fun a => ((m.get? a).map (·.rdeps)).getD [])
     removeAll (dedupe r.rdeps) drop
 
-def applyNormOrder (o : LoadOpts) (i : Id) (computed : List Id) : Except Err (List Id) :=
+/-- the order in which Python iterated the set, if one was observed and it is only an order -/
+def orderedNorm (o : LoadOpts) (i : Id) (computed : List Id) : List Id :=
   match o.normOrder.find? (·.1 == i) with
-  | none => .ok computed
-  | some (_, given) => if isPermOf given computed then .ok given else .error .assertion
+  | none => computed
+  | some (_, given) => if isPermOf given computed then given else computed
+
+/-- an observed order that is not a rearrangement of the computed set is a disagreement -/
+def normOrderOk (o : LoadOpts) (m : LMap) : Bool :=
+  m.revs.all (fun r =>
+    match o.normOrder.find? (·.1 == r.id) with
+    | none => true
+    | some (_, given) => isPermOf given (normalizeOne m r))
+
+/-- second phase: `_normalize_depends_on` for every revision -/
+def withNorm (o : LoadOpts) (m1 : LMap) : LMap :=
+  { m1 with revs := m1.revs.map (fun r => { r with ndeps := orderedNorm o r.id (normalizeOne m1 r) }) }
 
 /-- one pass of `_revisions_in_cycles`: drop every revision none of whose down revisions remain -/
 def peelOnce (succ : Id → List Id) (remaining : List Id) : List Id :=
@@ -216,10 +224,8 @@ def addBranches (m : LMap) : LMap :=
 
 def load (h : Hist) (o : LoadOpts := {}) : Except Err LMap := do
   let m1 ← loadPhase1 h
-  let revs ← m1.revs.mapM (fun r => do
-    let nd ← applyNormOrder o r.id (normalizeOne m1 r)
-    pure { r with ndeps := nd })
-  let m2 := { m1 with revs := revs }
+  if !normOrderOk o m1 then throw .assertion
+  let m2 := withNorm o m1
   detectCycles m2
   pure (addBranches m2)
 
